@@ -93,7 +93,7 @@ const TWELVE: [u32; 12] = [settings::NF, settings::EZ, settings::TD, settings::H
 
 fn main() {
     let ctx = Ctx::from_env("C08");
-    ctx.rule("universes: (a) every subset of {NF EZ TD HD HR DT NC HT FL SO RX AP} that rosu-mods' incompatibility table accepts (NC implies the DT bit, as the game writes it) [x key mods for mania] in up to five representations (u32, GameModsLegacy, GameModsIntermode, &GameModsIntermode, lazer GameMods via try_with_mode when every mod exists for the mode) on a pool of maps per mode configuration; (b) lazer DT/HT/NC/DC speed_change on a 0.01 grid over [0.5,2] vs the same mods with clock_rate(r), and vs the legacy DT/HT bit (+FL+HD) with clock_rate(r); pool incl. same-spot objects at 6 gaps around the stack threshold; (c) lazer DifficultyAdjust AR/CS/HP/OD on a 0.1 grid over [0,11] vs Difficulty::ar/cs/hp/od(v,false); oracle = exact equality of difficulty, strains and 3 performance results; non-trivial = stars > 0");
+    ctx.rule("universes: (a) every subset of {NF EZ TD HD HR DT NC HT FL SO RX AP} that rosu-mods' incompatibility table accepts (NC implies the DT bit, as the game writes it) [x key mods for mania] in up to five representations (u32, GameModsLegacy, GameModsIntermode, &GameModsIntermode, lazer GameMods via try_with_mode when every mod exists for the mode) on a pool of maps per mode configuration; (b) lazer DT/HT/NC/DC speed_change on a 0.01 grid over [0.5,2] and at 5 rates off that grid (1.375, 0.625, 1.2345, 1.005, 0.7549) vs the same mods with clock_rate(r), and vs the legacy DT/HT bit (+FL+HD) with clock_rate(r); pool incl. same-spot objects at 6 gaps around the stack threshold; (c) lazer DifficultyAdjust AR/CS/HP/OD on a 0.1 grid over [0,11] vs Difficulty::ar/cs/hp/od(v,false); oracle = exact equality of difficulty, strains and 3 performance results; non-trivial = stars > 0");
 
     let rich = !ctx.quick();
     for cfg in MODE_CFGS.iter() {
@@ -194,7 +194,8 @@ fn main() {
         }
 
         // (b) rate mods
-        let grid: Vec<f64> = (50..=200).map(|i| f64::from(i) / 100.0).collect();
+        // the 0.01 grid of the in-game slider, plus rates off that grid (the API takes any number, e.g. from a score's JSON)
+        let grid: Vec<f64> = (50..=200).map(|i| f64::from(i) / 100.0).chain([1.375, 0.625, 1.2345, 1.005, 0.7549]).collect();
         let total = grid.len() as u64 * 3 * maps.len() as u64;
         let name = format!("lazer-rate/{}to{}", cfg.src, cfg.dst);
         ctx.universe(&name, total, |idx, l: &mut Local<'_>| {
